@@ -193,7 +193,8 @@ pub fn skeletons() -> Vec<(&'static str, Vec<Op>)> {
     ]
 }
 
-pub fn generate(r: &mut Rng, _tier: Tier) -> serde_json::Value {
+/// A seeded history: actors and operations (directed skeleton + mutation, or free-form).
+pub fn gen_history(r: &mut Rng, mean_ops: u64, max_ops: u64) -> (Vec<Actor>, Vec<Op>, String) {
     let actors = gen_actors(r);
     let sw = gen_swarm(r, actors.len());
     let mut ops: Vec<Op> = vec![];
@@ -215,12 +216,12 @@ pub fn generate(r: &mut Rng, _tier: Tier) -> serde_json::Value {
                 }
             }
         }
-        let extra = r.geometric(0, 8, 3);
+        let extra = r.geometric(0, max_ops.min(8), 3);
         for _ in 0..extra {
             ops.push(gen_op(r, &sw));
         }
     } else {
-        let n = r.geometric(1, 25, 8);
+        let n = r.geometric(1, max_ops, mean_ops);
         if r.chance(9, 10) {
             ops.push(Op::Commit { actor: 0, dt: gen_dt(r), adt: 0, with_file: false });
         }
@@ -236,6 +237,11 @@ pub fn generate(r: &mut Rng, _tier: Tier) -> serde_json::Value {
             ops.push(gen_op(r, &sw));
         }
     }
+    (actors, ops, skeleton)
+}
+
+pub fn generate(r: &mut Rng, _tier: Tier) -> serde_json::Value {
+    let (actors, mut ops, skeleton) = gen_history(r, 8, 25);
     // observation points: up to 3 inside the history, the final state is always observed
     let nobs = r.below(4);
     for _ in 0..nobs {
